@@ -308,7 +308,7 @@ func c13Run(c *mon.Ctx) {
 		}
 	}
 	// totality and serialisation for radii outside the distance claims
-	for _, m := range []float64{-1, -1e9, math.NaN(), math.Inf(1), 2 * piR, 1e12} {
+	for _, m := range []float64{-1, -1e9, -0.001, -3.5, math.NaN(), math.Inf(1), 2 * piR, 1e12, 2.5e7, 40030174, 5e7, piR + 1} {
 		for _, steps := range []int{-1, 0, 2, 3, 4, 64} {
 			c.SetCase(func() interface{} {
 				return c13Case{Center: []float64{10, 20}, Meters: m, Steps: steps, What: "out-of-domain radius"}
@@ -328,6 +328,17 @@ func c13Run(c *mon.Ctx) {
 					if circ.JSON() != js || circ.Meters() != m {
 						c.Violation("changed-by-query", "a circle with an out-of-domain radius serialises differently after it has been queried", c13Case{Meters: m, Steps: steps, Got: circ.JSON(), Want: js})
 					}
+					// the serialised form parses back to a Circle with the same centre and radius
+					for _, po := range []*geojson.ParseOptions{nil, {AllowSimplePoints: true}} {
+						back, err := geojson.Parse(js, po)
+						bc, ok := back.(*geojson.Circle)
+						if err != nil || !ok {
+							c.Violation("reparse", "the serialised circle with an out-of-domain radius does not parse back to a Circle", c13Case{Meters: m, Steps: steps, Got: fmt.Sprint(err), Want: js})
+						} else if bc.Meters() != m || bc.Center() != circ.Center() {
+							c.Violation("reparse", "a circle with an out-of-domain radius parses back with another radius or centre", c13Case{Meters: m, Steps: steps, Got: fmt.Sprint(bc.Meters(), bc.Center()), Want: fmt.Sprint(m, circ.Center())})
+						}
+					}
+					c.Count("out_of_domain_reparsed")
 				}
 				c.Count("out_of_domain_radii")
 			})
@@ -347,6 +358,6 @@ func init() {
 		Rule:        "random circles (centres biased to poles and antimeridian; radii sub-metre .. half the circumference incl. boundary values; step counts -5..4096) each probed by 10 points placed at controlled reference distances (r(1+-10^-k), r+-(1.001..3) tol, r+-1.0001 tol, inside the undecided band, interior, exterior, the centre) on random bearings and on/between polygon vertices, through Point and SimplePoint, Contains/Intersects/Within in both operand orders; monotonicity in the radius; JSON layout and reparse (m and km); closedness, centre containment and centring of the polygon approximation; circle/circle pairs placed around the containment and intersection boundaries. Non-trivial = distinct probe within 10 tolerances of the circle.",
 		Assumptions: []string{"reference distance: internal/sphere; decided only outside +-tol(1+1e-6), tol = max(1 mm, 1e-8 r)", "circle/circle is asserted away from poles and the antimeridian and with an allowance of 1e-5 of the radii for the library's centre-distance estimate", "known finding F22 (radius within 1 m of half the circumference) is matched with a magnitude bound"},
 		Run:         c13Run,
-		MustSee:     []string{"probes_decided", "probes_in_undecided_band", "monotone_checked", "km_checked", "polygons_checked", "polygon_centred_checked", "circle_pairs", "circle_contains_circle_true", "out_of_domain_radii", "large_circle_pairs", "requeried_after_use"},
+		MustSee:     []string{"probes_decided", "probes_in_undecided_band", "monotone_checked", "km_checked", "polygons_checked", "polygon_centred_checked", "circle_pairs", "circle_contains_circle_true", "out_of_domain_radii", "out_of_domain_reparsed", "large_circle_pairs", "requeried_after_use"},
 	})
 }
